@@ -8,6 +8,14 @@ CHECKS = {
    text="spec/PeAuthenticode.tla transcribes the Microsoft PE-image-hash algorithm as a step machine (one action per numbered step) over abstract layouts with real byte offsets; TLC checks on every layout of the bounded space that the hashed ranges cover every byte except checksum, certificate-table entry and certificate table exactly once (CoverageThm, NeverExcluded, Ascending, PadTo8) and emits the ranges. Every layout is concretised to a real image by an independent PE writer; authenticode.Parse().Hash() must equal SHA-256 over exactly those ranges plus padding, and flipping any layout-neutral byte must change the digest iff the specification covers it. Repository binaries are projected to layouts by an independent reader and checked against TLC's ranges for them.",
    note="Trusted: TLC, harness PE writer/reader (offsets cross-checked against the spec per layout), SHA-256. Quick: 1056 layouts + boundary flips; thorough: ~80k layouts + every free byte. With gaps the oracle is the literal algorithm.",
    technique="TLA+ transcription of the algorithm model-checked with TLC; TLC-emitted ranges as oracle for the real code; byte-flip conformance"),
+ "C02": dict(level="model_checking", ref="5/C02",
+   text="spec/Pkcs7Sym.tla defines VerifyImage(blob, cert, image) = the SPC content carries this image's digest /\\ RFCVerify(blob, cert); TLC enumerates images x signature blobs with one or two signer infos (honest, transplanted from another image, digest rewritten, attacker-made under the same issuer+serial, signature over other bytes) x certificates (right, other, same issuer+serial with another key), checks NoOtherKey/ContentBound/TwinRejected and emits must_not/must/may; each case is concretised (real RSA signatures, real PE images with the blob attached by the harness's own certificate-table writer) and run through Authenticode.Verify and Parse(file).Verify, alone and behind a foreign signature entry; covered bytes of verifying images are flipped and must stop verifying.",
+   note="Trusted: TLC, symbolic cryptography assumptions, harness DER builder / PE writer, image digests computed by the harness from the specification's ranges. Quick flips every 7th covered byte, thorough every byte.",
+   technique="symbolic TLA+ verification rule model-checked with TLC; TLC-enumerated forgeries concretised and run on the code"),
+ "C04": dict(level="model_checking", ref="5/C04",
+   text="spec/Pkcs7Sym.tla states RFCVerify (signer entry names the certificate's issuer+serial, carries signed attributes, RSA-SHA256 valid under the certificate's key over the attributes as they appear, messageDigest = H(encapsulated content)); TLC enumerates every symbolic blob of the bounded space x 3 verifying certificates and emits must_not/must/may; the harness builds each blob as DER with real RSA signatures and runs every entry point (ParsePKCS7+Verify wrapped and bare, EFIVariableAuthentication2.Verify, ParseAuthenticode). Single-bit and structural mutations of library-, OpenSSL-, sbsign- and sbvarsign-produced blobs are projected by an independent reader to observations that TLC judges with the same rule (spec/Pkcs7Obs.tla).",
+   note="Trusted: TLC, symbolic cryptography assumptions, harness PKCS#7 reader/builder (encoding/asn1, crypto/rsa). Mutated blobs the independent reader cannot parse are not judged. The declared digestAlgorithm OID is not part of the statement (MAY).",
+   technique="symbolic TLA+ verification rule model-checked with TLC; TLC-enumerated blobs concretised and run on the code; observations judged by TLC"),
  "C07": dict(level="model_checking", ref="5/C07",
    text="spec/EslCodec.tla models the decoder as a step machine over abstract streams; TLC checks WellFormedAccepted/AcceptSound on every well-formed stream of the bounded language and emits each with its exact lists; every one is concretised, decoded by the real ReadSignatureDatabase, compared entry by entry and re-encoded byte-identically. The converse (databases reachable through library operations) is decided by replaying TLC-generated SigDb histories with a recode after every step and validating the recorded events with SigDbTrace. Repository fixtures are projected to abstract cases and judged by TLC (observation config).",
    note="Trusted: TLC, the harness's independent ESL writer/reader, SHA-256 identity of filler bytes. hdrsize != 0 and zero-count lists are MAY. Exhaustive within: <=2 (quick) / <=3 (thorough) lists of 18 shapes.",
